@@ -97,7 +97,7 @@ def rngs(draw, script_prob=0.5, max_len=40):
 # ---------------------------------------------------------------------- rewards
 
 ALL_LAWS = ["const", "noise", "negative", "nonpos_ties", "ties", "large", "alternating", "ramp",
-            "peak", "peakpos", "bump"]
+            "peak", "peakpos", "bump", "neartie"]
 
 
 @st.composite
@@ -107,6 +107,8 @@ def rewards(draw, laws=None, d=1, max_over=4, T=100):
     p = {}
     if law == "const":
         p["c"] = draw(st.sampled_from([0.0, 0.5, -1.0, 1.0, 3.25]))
+    if law == "neartie":
+        p["c"] = draw(st.sampled_from([1.0, -3.0, 1e6, 0.7, -1e-3]))
     if law == "alternating":
         p["a"] = draw(st.sampled_from([1.0, 0.25, 1e3]))
     if law in ("peak", "peakpos", "bump"):
@@ -173,6 +175,13 @@ def algo_spec(draw, name, d, pspec, n_range=(100, 300), full=False, hct_caps_ina
     nu = draw(loguniform(0.01, 10.0))
     rho = draw(st.floats(0.05, 0.95))
     if name == "T_HOO":
+        if draw(st.integers(0, 5)) == 0:
+            # boundary configurations: sqrt(n)*nu an exact power of 1/rho, where the argument of the
+            # ceil in the truncation depth is an exact integer (`<=` and `<` readings differ there)
+            squares = [m for m in (64, 256, 1024, 4096, 16384) if n_range[0] <= m <= n_range[1]] or [256]
+            return {"name": name, "params": {"nu": draw(st.sampled_from([0.25, 0.5, 1.0, 1, 2.0, 4.0])),
+                                             "rho": draw(st.sampled_from([0.5, 0.25, 0.125])),
+                                             "rounds": draw(st.sampled_from(squares))}}
         return {"name": name, "params": {"nu": nu, "rho": rho, "rounds": n}}
     if name in ("HCT", "VHCT"):
         c = draw(st.floats(0.01, 2.0))
@@ -183,7 +192,8 @@ def algo_spec(draw, name, d, pspec, n_range=(100, 300), full=False, hct_caps_ina
                 delta = 0.5 / c1 * 0.999
         p = {"nu": nu, "rho": rho, "c": c, "delta": delta}
         if name == "VHCT":
-            p["bound"] = draw(st.floats(0.1, 5.0))
+            # bound > 0 is all the documentation asks for: include the variance-dominated regime (tiny bound)
+            p["bound"] = draw(st.one_of(st.floats(0.1, 5.0), st.floats(0.1, 5.0), loguniform(1e-18, 1.0)))
         return {"name": name, "params": p, "n": n}
     if name in ("POO", "GPO", "PCT", "VPCT"):
         if name == "POO":
@@ -202,10 +212,12 @@ def algo_spec(draw, name, d, pspec, n_range=(100, 300), full=False, hct_caps_ina
         return spec
     if name == "DOO":
         p = {"n": n}
-        kind = draw(st.sampled_from([None, "geom", "const", "inv"]))
+        kind = draw(st.sampled_from([None, "geom", "const", "inv", "grow", "table"]))
         if kind:
             p["delta"] = {"kind": kind, "a": draw(st.sampled_from([1.0, 0.1, 5.0, 0.0])),
                           "b": draw(st.sampled_from([0.5, 0.9, 0.25]))}
+            if kind == "table":
+                p["delta"]["values"] = draw(st.lists(st.sampled_from([0.0, 0.1, 0.2, 0.3, 0.5, 0.6, 1.0, 2.0]), min_size=2, max_size=8))
         return {"name": name, "params": p}
     if name == "SOO":
         hmin = min_hmax_soo(n, K)
